@@ -41,6 +41,11 @@ func checkC13(r *Run) {
 			label += "/mixed-case-package"
 		}
 		switch {
+		case len(pairs)%8 == 6:
+			// the target package name is a prefix of the struct package name
+			b.PrefixTarget = true
+			b.Tags = append(b.Tags, "target-prefix-of-struct-package")
+			label += "/prefix-target"
 		case len(pairs)%4 == 2:
 			// the terraform package is named like the struct package (another directory)
 			b.SameName = true
